@@ -28,6 +28,7 @@ TIERS = {"quick": dict(shards=8, examples=500, all_partitions=False),
 @st.composite
 def _case(draw, shard, nshards, all_partitions):
     cfg = draw(T.config(shard=shard, nshards=nshards, max_tracks=3))
+    cfg["ppqn"] = None      # Bar / sequences_split_bars lay bars out with the library resolution
     route = draw(st.sampled_from(["split", "direct"]))
     piece = draw(T.piece(cfg, allow_crossing=(route == "split" and cfg["note_values"] is None), noise=False,
                          min_bars=draw(st.sampled_from([1, 2, 2, 3, 4]))))
